@@ -15,7 +15,8 @@ from .wrapcheck import run_cases
 NAMES = [["user", "id"], ["http", "port"], ["peer", "ids"], ["json", "file"], ["max", "size"], ["api", "url"], ["timeout"], ["level"], ["mode"], ["tags"]]
 TAGW = [["uid"], ["listen", "port"], ["file", "path"], ["nick"], ["limit"], ["endpoint"], ["wait"], ["lvl"], ["mod"], ["labels"]]
 ALIASW = [["old", "id"], ["old", "port"], ["old", "file"], ["old", "name"], ["old", "size"], ["old", "url"], ["old", "wait"], ["old", "lvl"], ["old", "mode"], ["old", "tags"]]
-ALL_KINDS = ["int", "int8", "uint16", "str", "bool", "f64", "dur", "strs", "ints", "smap", "set", "time", "named", "durs"]
+ALL_KINDS = ["int", "int8", "uint16", "str", "bool", "f64", "dur", "strs", "ints", "smap", "set", "time", "named", "durs", "structs"]
+NARROW = ["int8", "uint16", "named"]
 GARBAGE = ["", " ", ",", ":", "\"", "\"unterminated", "`", "a,b:c", "{", "}", "[", "{\"a\":", "-", "--", "0x", "1e999", "99999999999999999999",
            "\x00", "\\", "a\nb", "é→", "k:v,k:w", "'", "=", "a=b", "true,false", "1,2,x"]
 
@@ -92,6 +93,8 @@ def run_check(pid, tier, replay=None):
         cases += cs
         # (b) two top-level fields (leaf or struct with one leaf) over seeded kinds / styles / nest kinds
         kinds = rng.sample(ALL_KINDS, 3 if quick else 5)
+        if not set(kinds) & set(NARROW):
+            kinds[0] = rng.choice(NARROW)       # an out-of-range literal next to other supplied leaves is always in the sample
         styles = ["none"] + rng.sample(["snake", "camel", "kebab", "upper"], 2)
         nests = rng.sample(["struct", "pstruct", "emb"], 2)
         d = scratch.sub("srcs")
